@@ -332,6 +332,15 @@ func (w *ResponseWriter) WriteMsg(m *dns.Msg) error {
 		w.setCookie()
 		w.setNSID()
 
+		// An OPT that came with the response is the upstream hop's own: its
+		// cookie, NSID, padding and anything unknown describe that hop, not
+		// this one, and a cache hit for the same answer would carry none of
+		// them (the entry keeps the extended error only). Only extended
+		// errors say something about the answer itself and travel on.
+		if opt != w.opt {
+			opt.Option = keepExtendedErrors(opt.Option)
+		}
+
 		// Only add our options if they're not already in the response OPT
 		switch {
 		case opt == w.opt:
@@ -408,6 +417,20 @@ func keepOPTOnly(extra []dns.RR) []dns.RR {
 		}
 	}
 	return nil
+}
+
+// keepExtendedErrors returns opts reduced to its EDNS0_EDE entries, in
+// place. ECS is kept as well: the cache below this writer has already read
+// the upstream's scope from it, and stripECS removes it a few lines on.
+func keepExtendedErrors(opts []dns.EDNS0) []dns.EDNS0 {
+	keep := opts[:0]
+	for _, o := range opts {
+		switch o.(type) {
+		case *dns.EDNS0_EDE, *dns.EDNS0_SUBNET:
+			keep = append(keep, o)
+		}
+	}
+	return keep
 }
 
 // stripECS returns opts with every EDNS0_SUBNET entry removed.
